@@ -5,6 +5,16 @@ from common import *
 PROPS = ["C17", "C18"]
 
 
+def file_summary(e):
+    if e["op"] == "ftree":
+        return "tree of %d entries / %d nodes (largest %d bytes) persisted over the file store, node file cut at byte %d (%s): child %s, MakeRoot -> %s, again -> %s; reported root: %d missing, %d incomplete; %d misnamed files; after restart MakeRoot -> %s, same root %s, %d missing, %d incomplete" % (
+            e["n"], e["nodes"], e["maxnode"], e["limit"], e["mode"], e["child"], e["res1"] or "-", e["res2"] or "-", e["missing"], e["corrupt"], e["partial"],
+            e["restore"], e["sameroot"], e["missing2"], e["corrupt2"])
+    return "node of %d bytes, write cut at byte %d (%s): child %s, load -> %s, re-store %s, load -> %s" % (
+        e["len"], e["limit"], e["mode"], e["child"], "not found" if e["load1"] < 0 else "%d bytes" % e["load1"], e["restore"],
+        "not found" if e["load2"] < 0 else "%d bytes" % e["load2"])
+
+
 def collect(files, reports):
     stat, viols = {}, []
     for f, rep in zip(files, reports):
@@ -62,8 +72,7 @@ def check18(ctx):
     for v in fviols:
         v["tr"] += 10000000
     fby = {json.loads(c[0])["id"] + 10000000: c for c in fchunks}
-    rc2, nnew2 = report_violations(ctx, fviols, fstart, fby, lambda lines, upto, v: ("file write cut at byte %d of %d (%s): child %s" % (
-        json.loads(lines[0])["limit"], json.loads(lines[0])["len"], json.loads(lines[0])["mode"], json.loads(lines[0])["child"]), dict(event=json.loads(lines[0])), lines[0]))
+    rc2, nnew2 = report_violations(ctx, fviols, fstart, fby, lambda lines, upto, v: (file_summary(json.loads(lines[0])), dict(event=json.loads(lines[0])), lines[0]))
     rc, nnew = max(rc, rc2), nnew + nnew2
     stat["file_write_errors"] = fstat.get("ioerr", 0)
     cov = dict(states=states, transitions=trans, traces_validated_against_impl=len(chunks), samples=[brief(c)[:8] for c in chunks[:3]],
@@ -97,24 +106,24 @@ def check17(ctx):
         raise Undecided("the child process could not be cut by RLIMIT_FSIZE in this environment")
     by_id = {json.loads(c[0])["id"]: c for c in chunks}
 
-    def summary(e):
-        return "node of %d bytes, write cut at byte %d (%s): child %s, load -> %s, re-store %s, load -> %s" % (
-            e["len"], e["limit"], e["mode"], e["child"], "not found" if e["load1"] < 0 else "%d bytes" % e["load1"], e["restore"],
-            "not found" if e["load2"] < 0 else "%d bytes" % e["load2"])
+    summary = file_summary
 
     def describe(lines, upto, v):
         e = json.loads(lines[0])
         return summary(e), dict(event=e, validate_with="specs/TraceFile.tla"), lines[0]
 
     rc, nnew = report_violations(ctx, viols, start, by_id, describe)
-    distinct = len(set((json.loads(c[0])["len"], json.loads(c[0])["limit"], json.loads(c[0])["mode"]) for c in chunks))
+    distinct = len(set((json.loads(c[0]).get("len", json.loads(c[0]).get("n")), json.loads(c[0])["limit"], json.loads(c[0])["mode"]) for c in chunks))
     cov = dict(evaluations=len(chunks), distinct_nontrivial=min(distinct, stat.get("killed", 0) + stat.get("ioerr", 0)),
                rule="one evaluation = the real file.Persist.Store of one node run in a child process with RLIMIT_FSIZE = N for N in 0..len (every offset "
                     "for nodes up to 64 bytes, ends and random offsets for larger ones), once killed inside the write (SIGXFSZ, default action) and once "
-                    "with the write failing (EFBIG), followed by load, re-store and load in the parent; non-trivial = the child was killed or got the error",
+                    "with the write failing (EFBIG), followed by load, re-store and load in the parent; non-trivial = the child was killed or got the error; "
+                    "plus the same at the level of a tree: MakeRoot of a tree (with and without node cache) over the file store cut at a byte of a node file, "
+                    "retried by the same tree object once the error is gone, then persisted again by a new process; every reachable name checked against its bytes",
                samples=[summary(json.loads(c[0])) for c in chunks[3:6]], exercised=stat, states=states, transitions=trans, design_level=mc,
                traces_validated_against_impl=len(chunks), exhaustive=False)
     write_evidence(ctx, "fault_enumeration", cov, ["a crash is a process killed inside write(2); page-cache loss, reordering across fsync and directory-entry "
                                                    "durability are not reproducible here and are assumptions of FileStore.tla"], nnew)
-    log("  %d cut-short writes (%d killed, %d I/O errors, %d completed), %d violations of C17" % (len(chunks), stat.get("killed", 0), stat.get("ioerr", 0), stat.get("completed", 0), nnew))
+    log("  %d cut-short tree persists (%d killed, %d failed with an I/O error, %d of those succeeded on the second attempt)" % (stat.get("trees", 0), stat.get("treekilled", 0), stat.get("treeerr", 0), stat.get("treeretried", 0)))
+    log("  %d cut-short writes (%d killed, %d I/O errors, %d completed), %d violations of C17" % (len(chunks) - stat.get("trees", 0), stat.get("killed", 0), stat.get("ioerr", 0), stat.get("completed", 0), nnew))
     return rc
